@@ -200,6 +200,52 @@ func c11Worker() *Result {
 			}
 		}
 	}
+	// different inputs that are neighbours in one buffer of the caller (a batch read into one allocation, handed
+	// out as sub-slices whose capacity reaches into the next input): still different inputs
+	{
+		var batch []byte
+		offs := []int{0}
+		for i := range tasks {
+			batch = append(batch, tasks[i].Src...)
+			offs = append(offs, len(batch))
+		}
+		pristine := append([]byte(nil), batch...)
+		shared := make([]c11Task, len(tasks))
+		for i := range tasks {
+			shared[i] = c11Task{batch[offs[i]:offs[i+1]], tasks[i].Maj, tasks[i].Min}
+		}
+		got := make([]string, len(tasks))
+		var wg sync.WaitGroup
+		ch := make(chan int, len(tasks))
+		for _, i := range rng.Perm(len(tasks)) {
+			ch <- i
+		}
+		close(ch)
+		for g := 0; g < 16; g++ {
+			wg.Add(1)
+			go func() {
+				defer wg.Done()
+				for i := range ch {
+					got[i] = pipelineFingerprint(shared[i])
+				}
+			}()
+		}
+		wg.Wait()
+		for i := range tasks {
+			r.Evaluations++
+			if got[i] != base[i] {
+				r.fail(Failure{Site: "concurrent-differs:shared-buffer", Kind: "history", Input: printable(tasks[i].Src), Config: fmt.Sprintf("%d.%d goroutines=16, inputs are adjacent sub-slices of one buffer", tasks[i].Maj, tasks[i].Min),
+					Detail: "result of the pipeline on an input that shares its backing array with the other inputs differs from its result alone"})
+			}
+		}
+		if !bytes.Equal(batch, pristine) {
+			j := 0
+			for j < len(batch) && batch[j] == pristine[j] {
+				j++
+			}
+			r.fail(Failure{Site: "shared-buffer-modified", Kind: "history", Detail: fmt.Sprintf("the buffer holding all inputs was modified at offset %d (was %q, is %q)", j, pristine[j], batch[j])})
+		}
+	}
 	seen := map[string]bool{}
 	for i := range tasks {
 		k := hashKey(string(tasks[i].Src), fmt.Sprint(tasks[i].Maj, tasks[i].Min))
